@@ -213,4 +213,7 @@ def cases(tier, rng):
 
 
 def oracle(case, r):
-    return muxprop.prelude_violation(case, r) or _oracle(case, r)
+    v = muxprop.prelude_violation(case, r)
+    if v or case.get('share'):
+        return v        # the shared-operator variant wraps the pipeline in a tee_map: judged against separately built operators only
+    return _oracle(case, r)
